@@ -10,7 +10,7 @@ PROOF_FILES = [f for f in ['proofs/C06Proofs.v'] if os.path.exists(os.path.join(
 
 
 def main(tier, seed):
-    return icheck.run(PROP, tier, seed, genchart.Profile(p_hist_target=0.25, p_history=0.7, p_orth=0.3, p_contract=0.05, max_states=14, n_trans=(5, 14), alt=[(0.15, genchart.parallel_profile(p_history=0.6, p_sibling_target=0.5)), (0.05, genchart.nested_parallel_chart)]), ifam.ScenarioSpec(p_queue=0.45, n_ops=(12, 30)), icheck.interest_c06, PROOF_FILES, assumptions=['DESIGN.md section 2 well-formedness'])
+    return icheck.run(PROP, tier, seed, genchart.Profile(p_hist_target=0.4, p_history=0.7, p_orth=0.3, p_contract=0.05, max_states=14, n_trans=(5, 14), alt=[(0.15, genchart.parallel_profile(p_history=0.6, p_sibling_target=0.5)), (0.05, genchart.nested_parallel_chart)]), ifam.ScenarioSpec(p_queue=0.45, n_ops=(12, 30)), icheck.interest_c06, PROOF_FILES, assumptions=['DESIGN.md section 2 well-formedness'])
 
 
 replay = icheck.replay
